@@ -45,7 +45,8 @@ static bool parse5(const char *buf, double v[5])
     return sscanf(buf, "%lf %lf %lf %lf %lf", &v[0], &v[1], &v[2], &v[3], &v[4]) == 5;
 }
 
-static bool check_fivenum(const char *buf, double lo, double hi, const char *what)
+static bool check_fivenum(const char *buf, double lo, double hi, const char *what, const double *vals,
+                          const double *wts, int cnt)
 {
     double v[5];
     char rule[100];
@@ -65,6 +66,22 @@ static bool check_fivenum(const char *buf, double lo, double hi, const char *wha
         if (k > 0 && v[k] < v[k - 1] - sl) {
             snprintf(rule, sizeof rule, "%s:fivenum-not-monotone:%s", what, szclass(n));
             FAIL(rule, "five-number summary %g %g %g %g %g is not non-decreasing", v[0], v[1], v[2], v[3], v[4]);
+            return false;
+        }
+    }
+    /* the median it reports must be a true (weighted) median of the data, to printing precision */
+    if (vals != NULL && cnt > 0) {
+        double below = 0, above = 0, tot = 0;
+        for (int i = 0; i < cnt; i++) {
+            const double w = wts ? wts[i] : 1.0;
+            tot += w;
+            below += (vals[i] < v[2] - sl) ? w : 0;
+            above += (vals[i] > v[2] + sl) ? w : 0;
+        }
+        if (below > 0.5 * tot + 1e-9 * tot || above > 0.5 * tot + 1e-9 * tot) {
+            snprintf(rule, sizeof rule, "%s:fivenum-median-not-a-median:%s", what, szclass(n));
+            FAIL(rule, "five-number summary %g %g %g %g %g: of total weight %g, %g lies strictly below the reported median "
+                 "and %g strictly above", v[0], v[1], v[2], v[3], v[4], tot, below, above);
             return false;
         }
     }
@@ -178,7 +195,7 @@ static void check_dataset(void)
         FILE *fp = open_memstream(&buf, &len);
         cmb_dataset_fivenum_print(&ds, fp, false);
         fclose(fp);
-        const bool ok = check_fivenum(buf, lo, hi, "dataset");
+        const bool ok = check_fivenum(buf, lo, hi, "dataset", xs, NULL, n);
         free(buf);
         if (!ok) {
             goto out;
@@ -374,7 +391,11 @@ static void check_timeseries(void)
         cmb_timeseries_fivenum_print(&ts, fp, false);
         fclose(fp);
         vx_outcome(vx_hash_str(6, buf));
-        const bool ok = check_fivenum(buf, lo, hi, "timeseries");
+        double ww[64];
+        for (int i = 0; i < n && i < 64; i++) {
+            ww[i] = ref[i].w;
+        }
+        const bool ok = check_fivenum(buf, lo, hi, "timeseries", xs, ww, n < 64 ? n : 0);
         free(buf);
         if (!ok) {
             goto out;
@@ -462,7 +483,12 @@ static void check_timeseries(void)
             FILE *fp = open_memstream(&buf, &len);
             cmb_timeseries_fivenum_print(&ts, fp, false);
             fclose(fp);
-            const bool ok = check_fivenum(buf, lo, hi, "timeseries-after-sort-x");
+            double vv[64], ww[64];
+            for (int i = 0; i < n && i < 64; i++) {
+                vv[i] = ref[i].x;
+                ww[i] = ref[i].w;
+            }
+            const bool ok = check_fivenum(buf, lo, hi, "timeseries-after-sort-x", vv, ww, n < 64 ? n : 0);
             free(buf);
             if (!ok) {
                 goto out;
